@@ -16,7 +16,7 @@ UNITS = {
     'votor': {'template': 'units/votor/unit.rs', 'serves': ['C05', 'C18'], 'min_verified': 60},
     'parent_ready': {'template': 'units/parent_ready/unit.rs', 'serves': ['C07'], 'min_verified': 64},
     'repair': {'template': 'units/repair/unit.rs', 'serves': ['C14', 'C15', 'C10'], 'min_verified': 28},
-    'producer': {'template': 'units/producer/unit.rs', 'serves': ['C10'], 'min_verified': 18},
+    'producer': {'template': 'units/producer/unit.rs', 'serves': ['C10'], 'min_verified': 24},
     'deshred': {'template': 'units/deshred/unit.rs', 'serves': ['C11', 'C13'], 'min_verified': 12},
     'ingest': {'template': 'units/ingest/unit.rs', 'serves': ['C12', 'C13', 'C16'], 'min_verified': 10},
     'sampler': {'template': 'units/sampler/unit.rs', 'serves': ['C17'], 'min_verified': 36},
